@@ -180,6 +180,33 @@ func registerModels(e *Engine) {
 		st.heap.set(sp.obj, navSet(st.hget(sp.obj), sp.path, ConstBV(cur.(*Term).s.W, 1)))
 		return nil
 	}
+	// TryLock: fails when the mutex is held; inside a modelled goroutine it may
+	// also fail because the other goroutine can hold the mutex at that moment
+	// (forked), which is how "skip the work when contended" code paths are seen.
+	ic["(*sync.Mutex).TryLock"] = func(e *Engine, st *State, fr *Frame, in ssa.CallInstruction, a []Val) Val {
+		p := a[0].(PtrVal)
+		if p.obj == 0 {
+			abort("panic", "nil mutex")
+		}
+		sp := PtrVal{obj: p.obj, path: append(append([]int(nil), p.path...), 0)}
+		cur := navGet(st.hget(sp.obj), sp.path)
+		if t, ok := cur.(*Term); ok && t.IsConst() && t.c != 0 {
+			return False
+		}
+		if st.thread != 0 {
+			site := fmt.Sprintf("trylock#%d", st.siteCtr)
+			c := e.choose(st, site, 2)
+			st.siteCtr++
+			if c == 1 {
+				return False
+			}
+		}
+		if st.log != nil {
+			st.log.lockEvent(st, p, true)
+		}
+		st.heap.set(sp.obj, navSet(st.hget(sp.obj), sp.path, ConstBV(cur.(*Term).s.W, 1)))
+		return True
+	}
 	ic["(*sync.Mutex).Unlock"] = func(e *Engine, st *State, fr *Frame, in ssa.CallInstruction, a []Val) Val {
 		p := a[0].(PtrVal)
 		sp := PtrVal{obj: p.obj, path: append(append([]int(nil), p.path...), 0)}
